@@ -104,6 +104,8 @@ def make_requests(rng, n):
         elif m < 0.50:
             k = rng.choice([0, 1, 2, 3, 6])
             cells = [gen.malformed_id(rng) if rng.random() < 0.6 else gen.rand_cell(rng) for _ in range(k)]
+            if rng.random() < 0.25:
+                cells = id_run(rng)
             R = r
             if -1 <= R <= 29:
                 # honest results above 4^8 cells are out of the property's scope: drop the inputs that would exceed it
@@ -121,6 +123,8 @@ def make_requests(rng, n):
             if mode < 0.3:
                 # the F12 shape: top six bits 60..63 with a resolution-0 marker, followed by larger values
                 cells = [((60 + j % 4) << 58) | (1 << 57) | rng.getrandbits(40) for j in range(k)] + [rng.getrandbits(64) | (63 << 58) for _ in range(8)]
+            elif mode < 0.5:
+                cells = id_run(rng)
             else:
                 cells = [gen.malformed_id(rng) if rng.random() < 0.5 else gen.rand_cell(rng) for _ in range(k)]
             reqs.append(f"compact {','.join(map(str, cells)) if cells else '-'}")
@@ -154,6 +158,22 @@ CORPUS = [
     "compact " + ",".join(str(((60 + j % 4) << 58) | (1 << 57)) for j in range(12)) + "," + ",".join(str((63 << 58) | (1 << 57) | (j + 1)) for j in range(8)),
     "get_res0_cells",
 ]
+
+
+def id_run(rng):
+    """a run of ids in arithmetic progression (one sibling stride apart) that walks OFF the end of something: the last cells of a
+    quintant / a face / the whole id space at some resolution followed by the values the same step produces next (top six bits 60:
+    not a cell).  A list that 'continues the pattern' must be validated element by element."""
+    r = rng.randint(2, 29)
+    stride = 1 << (58 - 2 * (r - 1))
+    T = rng.choice([59, 59, 59, rng.randrange(60), 5 * rng.randrange(12) + 4])
+    last = spec.encode(r, T, (3,) * (r - 1))
+    before = rng.randint(0, 3)
+    after = rng.randint(1, 3)
+    out = [(last + j * stride) & ((1 << 64) - 1) for j in range(-before, after + 1)]
+    if rng.random() < 0.2:
+        out.reverse()
+    return out
 
 
 def run(run):
@@ -205,7 +225,7 @@ def run(run):
     himpl = core.run_isolated(hexe, hreq, mem_bytes=2 << 30, timeout_total=300)
     hmodel = core.run_driver(hreq, timeout=300)
     run.correspond(hreq, himpl, hmodel, None, "internal-helpers[debug]")
-    run.rule = ("corpus of the repaired crash inputs first, then a malformed stream over all 13 public functions: random u64, canonical ids with stray low bits, marker-only patterns with any top six bits, "
+    run.rule = ("corpus of the repaired crash inputs first, then a malformed stream over all 13 public functions: random u64, runs of ids one stride apart that walk off the end of a quintant / a face / the id space, canonical ids with stray low bits, marker-only patterns with any top six bits, "
                 "top bits 60..63, aliases of the world cell, single-bit flips x i32 resolutions (small, boundary 29/30/31, extremes) x finite coordinates incl. 1e300 and sub-normals; "
                 "each line run in BOTH an overflow-checked debug build and a release build of the harness with a 2 GiB address-space limit (crash or hang = lost line, reported); "
                 "calls whose honest result exceeds 4^8 cells are steered back into scope for the model comparison, and nine requests with results of up to 44 TB are run on the implementation alone and their outcome is recorded (out of the property's scope: an observation, not a verdict); a sample of the stream is run again in shuffled order with immediate duplicates and rejected calls in between (answers must equal the pure model's); non-trivial = distinct requests that did not simply succeed")
